@@ -1,12 +1,39 @@
 import OtelVerif.Common.Line
 import OtelVerif.Model.C11
+import Std.Data.HashSet
 /-! driver for C11: models `c11-reporter` and `c11-shared` -/
 open OtelVerif OtelVerif.Line OtelVerif.C11 OtelVerif.Gen
 
 namespace OtelVerif.Drivers.C11
 
+/-- Is there an interleaving of the goroutines' scripts (each a list of reports for ONE instance, in program order) whose run
+through the model `step`, starting in `None`, delivers exactly the observed events?  Exhaustive layered search over
+(positions, current status, number of events matched); every transition advances one position, so after `total` rounds
+only complete interleavings survive.  (A search, not a theorem: a wrong `false` would be a false alarm — the search is
+exhaustive —, a wrong `true` only a missed detection.) -/
+def linCheck (scripts : List (List Report)) (obs : List St) : Bool :=
+  let scr : Array (Array Report) := (scripts.map List.toArray).toArray
+  let obsA := obs.toArray
+  let total := scripts.foldl (fun a s => a + s.length) 0
+  let init : Std.HashSet (List Nat × Nat × Nat) := ({} : Std.HashSet (List Nat × Nat × Nat)).insert (scripts.map (fun _ => 0), St.none.toNat, 0)
+  let final := (List.range total).foldl (fun (front : Std.HashSet (List Nat × Nat × Nat)) _ =>
+    front.fold (fun acc (st : List Nat × Nat × Nat) =>
+      let (pos, cur, k) := st
+      (List.range pos.length).foldl (fun acc g =>
+        let p := pos.getD g 0
+        match (scr.getD g #[])[p]? with
+        | Option.none => acc
+        | some r =>
+          let (cur', ev) := step ((St.ofNat? cur).getD .none) r
+          match ev with
+          | Option.none => acc.insert (pos.set g (p + 1), cur'.toNat, k)
+          | some e => if obsA[k]? == some e then acc.insert (pos.set g (p + 1), cur'.toNat, k + 1) else acc) acc)
+      ({} : Std.HashSet (List Nat × Nat × Nat))) init
+  final.any (fun st => st.2.2 == obs.length)
+
 structure RS where
   race : Bool := false   -- `mode=race`: nobody reports OK explicitly, so every OK must directly follow Starting
+  scripts : List (List (Inst × Report)) := []   -- `mode=conc`: the goroutines' scripts, reversed
   rep : Reporter := {}
   implEvents : List (Inst × St) := []   -- reversed
   bad : Option String := none
@@ -35,9 +62,27 @@ def repHandler : Handler RS where
       match i.toNat?, st.toNat?.bind St.ofNat? with
       | some i, some st => { s with implEvents := (i, st) :: s.implEvents }
       | _, _ => { s with bad := some "unparsable event" }
+    | _ :: "script" :: _ :: ops =>
+      let one (t : String) : Option (Inst × Report) :=
+        match t.splitOn ":" with
+        | [i, a] =>
+          match i.toNat? with
+          | some i => if a = "k" then some (i, .okIfStarting) else (a.toNat?.bind St.ofNat?).map (fun st => (i, Report.status st))
+          | Option.none => Option.none
+        | _ => Option.none
+      match ops.mapM one with
+      | some l => { s with scripts := l :: s.scripts }
+      | Option.none => { s with bad := some "unparsable script" }
     | _ => s
   onEnd := fun s =>
     let evs := s.implEvents.reverse
+    let scriptInsts := (s.scripts.flatMap (fun l => l.map (·.1))).eraseDups
+    let badLin := if s.scripts.isEmpty then Option.none else
+      (scriptInsts ++ (evs.map (·.1))).eraseDups.find? (fun i =>
+        !(linCheck (s.scripts.map (fun l => l.filterMap (fun p => if p.1 = i then some p.2 else Option.none))) (evs.filterMap (projEvB i))))
+    match badLin with
+    | some i => [s!"prop path=FAIL sig=C11/reporter/concurrent-events-not-explained-by-any-interleaving instance={i} events={(evs.filterMap (projEvB i)).map St.toNat}"]
+    | Option.none =>
     let insts := (evs.map (·.1)).eraseDups
     let badInst := insts.find? (fun i => !(isPath .none (evs.filterMap (projEvB i))))
     let badDoc := insts.find? (fun i => !(docPathB .none (evs.filterMap (projEvB i))))
@@ -54,6 +99,7 @@ where projEvB (i : Inst) (p : Inst × St) : Option St := if p.1 = i then some p.
 
 structure SS where
   w : Wrapper := {}
+  we : WrapperE := {}   -- the same wrapper, remembering the events shown to every instance's watcher (`C11_shared_events_partial`)
   reportsBeforeLastAttach : Nat := 0
   reports : Nat := 0
   lastImpl : Option (List String) := none
@@ -66,12 +112,16 @@ def sharedHandler : Handler SS where
     match toks with
     | ["attach"] =>
       let w := s.w.addSource
-      ({ s with w := w, reportsBeforeLastAttach := s.reports }, [s!"obs src {showSources w}"])
+      ({ s with w := w, we := s.we.addSource, reportsBeforeLastAttach := s.reports }, [s!"obs src {showSources w}"])
+    | ["evs"] =>
+      -- every instance's delivered events: the graph's own Starting, then what the wrapper replayed and fanned out
+      (s, (List.range s.we.sources.length).map (fun i =>
+        s!"obs evs {i} {",".intercalate ((St.starting :: ((s.we.sources.getD i (St.none, [])).2)).map (fun x => toString x.toNat))}"))
     | ["report", st] =>
       match st.toNat?.bind St.ofNat? with
       | some st =>
         let w := s.w.report StatusTable.ringCap st
-        ({ s with w := w, reports := if s.w.sources.isEmpty then s.reports else s.reports + 1 }, [s!"obs src {showSources w}"])
+        ({ s with w := w, we := s.we.report StatusTable.ringCap st, reports := if s.w.sources.isEmpty then s.reports else s.reports + 1 }, [s!"obs src {showSources w}"])
       | Option.none => (s, ["obs bad-op"])
     | _ => (s, ["obs bad-op"])
   onObs := fun s toks =>
@@ -111,7 +161,7 @@ def lifeHandler : Handler (List String) where
       match kv rest "x", kv rest "y", kvNat rest "sx", kvNat rest "sy", (kv rest "ds").bind parseCSV, kvNat rest "allok",
             (kv rest "run").bind parseCSV, kvNat rest "pisx", (kv rest "dstop").bind parseCSV, kvNat rest "fstop" with
       | some x, some y, some sx, some sy, some ds, some allok, some rn, some pisx, some dstop, some fstop =>
-        let l : SharedLife := ⟨sx = 1, sy = 1, ds, allok = 1, rn, pisx = 1, dstop, fstop = 1⟩
+        let l : SharedLife := ⟨sx = 1, sy = 1, ds, allok = 1, rn, pisx = 1, dstop, fstop = 1, kvNat rest "fstart" == some 1⟩
         (s, [s!"obs events {x} {showCSV l.eventsX}", s!"obs events {y} {showCSV (l.eventsY StatusTable.ringCap)}"])
       | _, _, _, _, _, _, _, _, _, _ => (s, ["obs bad-op"])
     | _ => (s, ["obs bad-op"])
